@@ -75,6 +75,11 @@ def handover(rep, idx):
     ]
     for spec, ok, what in sites:
         fi = idx.find_func(spec)
+        if spec == "WishboneSRAM.__init__":
+            # the published map under whatever local name it is built: the name(s) stored into self.wb_bus.memory_map
+            published = {ast.unparse(st.value) for st in ast.walk(fi.node) if isinstance(st, ast.Assign) and isinstance(st.value, ast.Name) and
+                         any(ast.unparse(t) == "self.wb_bus.memory_map" for t in st.targets)}
+            ok = (lambda pub: (lambda r: r == "self.wb_bus.memory_map" or r in pub))(published)
         apirules.must_call(rep, "C02.3", idx, fi, freezes(ok), what)
     # Builder.as_memory_map: the returned map is frozen
     fi = idx.find_func("Builder.as_memory_map")
